@@ -225,23 +225,6 @@ fn empty_operand_laws(stats: &mut Stats, rng: &mut Rng) {
     }
 }
 
-/// a closed shape made of one section (teardrop) or two (lens of two arcs)
-fn few_section_shape(rng: &mut Rng) -> P {
-    let c = Coord2(rng.r(30.0, 70.0), rng.r(30.0, 70.0));
-    let a = rng.r(0.0, TAU);
-    let r = rng.r(15.0, 35.0);
-    let u = Coord2(a.cos(), a.sin());
-    let v = Coord2(-u.1, u.0);
-    if rng.b() {
-        let k = rng.r(0.5, 1.0);
-        (c, vec![(c + (u * 1.0 - v * k) * r, c + (u * 1.0 + v * k) * r, c)])
-    } else {
-        let (p, q) = (c - u * r, c + u * r);
-        let (b1, b2) = (rng.r(0.3, 0.9) * r, rng.r(0.3, 0.9) * r);
-        (p, vec![(p + u * (r * 0.6) + v * b1, q - u * (r * 0.6) + v * b1, q), (q - u * (r * 0.6) - v * b2, p + u * (r * 0.6) - v * b2, p)])
-    }
-}
-
 pub fn search(seed: u64, n: u64) {
     quiet_panics();
     let mut rng = Rng(seed ^ 0x5EA2C11);
